@@ -8,3 +8,4 @@ import JominiModel.Props.C14
 #print axioms Jomini.Props.C14.C14_write_nested
 #print axioms Jomini.Props.C14.C14_roundtrip_nested
 #print axioms Jomini.Props.C14.C14_roundtrip_arrays
+#print axioms Jomini.Props.C14.C14_roundtrip_containers
